@@ -118,3 +118,14 @@ Proof. exact (conj (proj2 tie_generate_frames) boxed_generate_same_loop). Qed.
 From GAGen Require Import GenHeap.
 Theorem C16_source_default_boxed : gen_default_boxed_is_generate = true.
 Proof. reflexivity. Qed.
+
+(* ---- T1: the one-expression bodies this property's code consists of besides the modelled core, as they stand
+        in the source now (coq/gen/GenSigs.v gen_thin_bodies) ---- *)
+From Coq Require Import String.
+From GA Require Import SigTie.
+From GAGen Require Import GenSigs.
+Local Open Scope string_scope.
+
+Theorem C16_source_thin_bodies :
+  thin_of "GenericArray<T,N>" "default_boxed" = Some "Box :: < GenericArray < T , N > > :: generate (| _ | T :: default ())".
+Proof. repeat split. Qed.
